@@ -879,6 +879,9 @@ class Interp:
             if self.in_old and self.old_view is not None and obj.oid in self.old_view:
                 fields = self.old_view[obj.oid]
             if name in fields:
+                aux = self.ctx.aux_fields_of.get(obj.oid)
+                if aux and aux.get(name) is False and not self.fmode:
+                    self.ctx.aux_reads.add(f"{getattr(obj.cls, '__name__', obj.cls)}.{name}")
                 return fields[name]
             cls = obj.cls
             if isinstance(cls, ExtClass):
